@@ -102,6 +102,8 @@ NAME_POOL = [
     (b'q?', b'#hash'), (b'caf\xc3\xa9', b'\xe6\x97\xa5\xe6\x9c\xac'), (b'x.trashinfo', b'y.trashinfo.trashinfo'),
     (b'Foo', b'foo'), (b'a_1', b'a'), (b'tab\there', b"quote'\""), (b'L' * 200, b'M' * 120),
     (b'.hidden', b'..dots'), (b'tilde~', b'back\\slash'), (b'notes\n', b'x\n\n'), (b'.env', b'.config.d'), (b'...', b'....'),
+    # valid UTF-8 that is not in normal form C: the composed spelling would be another name
+    (b'cafe\xcc\x81', b'caf\xc3\xa9'), (b'\xe2\x84\xab', b'\xc3\x85'),
 ]
 NAME_POOL_NONUTF8 = [(b'bad\xff', b'ok'), (b'\xfe\xfd', b'\xc3')]
 
